@@ -81,17 +81,22 @@ def run_nodes(st, drv, sid, ctxflags, nodes, init_dump):
             st.samples.append({'schema': sid, 'ctxflags': ctxflags, 'text': trace.text_of(node.words), 'expected': e})
 
 
+def reduced_alphabet(sch):
+    """declared names, one value, one title, the punctuation that sections and assignments need"""
+    return [n.decode('latin-1') for n in sch.all_names()] + ['7', 't1', '=', '+=', '{', '}']
+
+
 def shard_e1(shard):
     kind, sid, ctxflags, N, prefixes, deadline = shard
     sch = SCHEMAS[sid]
     drv = get_driver('asan')
     drv.define_schema(sid, sch.spec())
     st = ShardStats('E1 N=%d' % N)
-    alpha = S.alphabet_for(sch)
+    alpha = reduced_alphabet(sch) if kind.endswith('r') else S.alphabet_for(sch)
     init_dump = 'dump ' + dump_sec(new_store(sch, ctxflags), 0)
     buf = []
     for prefix in prefixes:
-        if kind == 'node':
+        if kind.startswith('node'):
             gen = [trace.evaluate(sch, ctxflags, list(prefix))]
         else:
             gen = trace.e1(sch, ctxflags, alpha, N, prefix)
@@ -250,6 +255,18 @@ def main():
                                  'cases': agg['n'], 'completed': agg['complete'], 'wall_s': round(time.time() - t, 1)})
         if not agg['complete']:
             ck.cov['exhaustive'] = False
+    # E1 with a reduced alphabet, deeper: repeated titles, re-opened sections, a section named like the top-level context
+    deep = ['F05', 'F06', 'F07', 'F08', 'F16', 'F18', 'F19']
+    for N in ([8, 10] if quick else [10, 11, 12]):
+        shards = []
+        for sid in deep:
+            sch = SCHEMAS[sid]
+            alpha = reduced_alphabet(sch)
+            inner, frontier = trace.viable_prefixes(sch, 0, alpha, 3)
+            shards.append(('noder', sid, 0, N, inner, ck.deadline))
+            for ch in chunks(frontier, 2):
+                shards.append(('dfsr', sid, 0, N, ch, ck.deadline))
+        engine.phase(ck, 'E1 reduced alphabet N=%d' % N, shard_e1, shards, schemas=len(deep))
     # E2: full product, no pruning
     L = 4 if quick else 5
     for LL in ([3, L] if quick else [4, L]):
